@@ -112,7 +112,7 @@ def check_history(case, ctx):
 MUTS = [
     "none", "flip_sig_bit", "flip_msg_bit", "other_key", "R=0", "R>=p", "R_nonresidue",
     "s=0", "s=n", "s=n+small", "s=2^256-1", "pk_not_on_curve", "pk>=p", "pk=0",
-    "random_sig", "negated_nonce", "neg_s", "R_other_point", "swap_R_s",
+    "random_sig", "negated_nonce", "neg_s", "R_other_point", "swap_R_s", "pk=0_forged",
 ]
 
 
@@ -175,6 +175,14 @@ def build(case):
         pk = b32(P + case["j"])
     elif mut == "pk=0":
         pk = bytes(32)
+    elif mut == "pk=0_forged":
+        # x = 0 is not on the curve.  An implementation that reads the zero key as the point at infinity
+        # computes R = s*G - e*infinity = s*G for every message, so anybody can "sign": sig = x(s*G) || s
+        pk = bytes(32)
+        s2 = case["k2"]
+        if ec.mul(s2)[1] % 2:
+            s2 = N - s2
+        sig = ec.xonly(ec.mul(s2)) + b32(s2)
     elif mut == "random_sig":
         sig = case["rnd"]
     elif mut == "negated_nonce":
